@@ -9,8 +9,8 @@ import (
 	"context"
 	"fmt"
 	"io"
-	"regexp"
 	"log/slog"
+	"regexp"
 	"sort"
 	"strings"
 	"sync"
@@ -33,8 +33,8 @@ import (
 	"github.com/prometheus/alertmanager/provider/mem"
 	"github.com/prometheus/alertmanager/types"
 
-	"verifharness/sysrun"
 	"verifharness/appsys"
+	"verifharness/sysrun"
 	"verifharness/vh"
 	"verifharness/vhm"
 )
